@@ -46,25 +46,76 @@ func ruleC01Sections(p *Prog, r *Res) {
 		}
 		return ""
 	}
-	// writer side: calls of the local helpers writeSection / writeLookup with a constant section
+	// writer side: calls of the section helper / lookup helper with a constant section. The helpers are identified by
+	// role, not by name: a section helper is a function (local closure or method) that calls setSectionBegin on its own
+	// first parameter; a lookup helper is a function that calls a section helper with its own first parameter.
+	localLit := map[types.Object]*ast.FuncLit{}
+	ast.Inspect(fin.Body(), func(x ast.Node) bool {
+		if as, ok := x.(*ast.AssignStmt); ok && len(as.Lhs) == len(as.Rhs) {
+			for i, rh := range as.Rhs {
+				if lit, ok := rh.(*ast.FuncLit); ok {
+					if o := identObj(info, as.Lhs[i]); o != nil {
+						localLit[o] = lit
+					}
+				}
+			}
+		}
+		return true
+	})
+	resolve := func(owner *Fn, c *ast.CallExpr) *Fn {
+		if id, ok := ast.Unparen(c.Fun).(*ast.Ident); ok {
+			if lit := localLit[owner.Pkg.TypesInfo.ObjectOf(id)]; lit != nil {
+				return p.FnOfLit(lit)
+			}
+		}
+		if fn := p.Callee(owner.Pkg, c); fn != nil {
+			return p.FnOfObj(fn)
+		}
+		return nil
+	}
+	firstParamPassed := func(h *Fn, c *ast.CallExpr) bool {
+		po := paramObj(h, 0)
+		return po != nil && len(c.Args) >= 1 && sameObj(h.Pkg.TypesInfo, c.Args[0], po)
+	}
+	isSectionHelper := func(h *Fn) bool {
+		if h == nil || h.Body() == nil {
+			return false
+		}
+		for _, c := range callsIn(h.Body()) {
+			if fn := p.Callee(h.Pkg, c); fn != nil && fn.Name() == "setSectionBegin" && firstParamPassed(h, c) {
+				return true
+			}
+		}
+		return false
+	}
+	isLookupHelper := func(h *Fn) bool {
+		if h == nil || h.Body() == nil || isSectionHelper(h) {
+			return false
+		}
+		for _, c := range callsIn(h.Body()) {
+			if g := resolve(h, c); g != nil && g != h && isSectionHelper(g) && firstParamPassed(h, c) {
+				return true
+			}
+		}
+		return false
+	}
 	writerType := map[string]string{}
 	writes := map[string]int{}
 	var lookupLess = map[string]*ast.FuncLit{}
+	sectionHelpers := map[*Fn]bool{}
 	inspectShallow(fin.Body(), func(x ast.Node) bool {
 		c, ok := x.(*ast.CallExpr)
 		if !ok || len(c.Args) < 2 {
-			return true
-		}
-		id, ok := c.Fun.(*ast.Ident)
-		if !ok {
 			return true
 		}
 		name := constName(c.Args[0])
 		if name == "" {
 			return true
 		}
-		switch id.Name {
-		case "writeSection":
+		h := resolve(fin, c)
+		switch {
+		case isSectionHelper(h):
+			sectionHelpers[h] = true
 			writes[name]++
 			if lit, ok := c.Args[1].(*ast.FuncLit); ok {
 				// the type written: argument of w.write(...) inside the body
@@ -77,7 +128,12 @@ func ruleC01Sections(p *Prog, r *Res) {
 					return true
 				})
 			}
-		case "writeLookup":
+		case isLookupHelper(h):
+			for _, hc := range callsIn(h.Body()) {
+				if g := resolve(h, hc); g != nil && isSectionHelper(g) {
+					sectionHelpers[g] = true
+				}
+			}
 			writes[name]++
 			writerType[name] = "uint32"
 			if lit, ok := c.Args[1].(*ast.FuncLit); ok {
@@ -117,20 +173,17 @@ func ruleC01Sections(p *Prog, r *Res) {
 		r.Check(writes[n] == 1, ruleB, n+" written exactly once by Finalize", p.Pos(fin.Node()), "one writeSection/writeLookup call", fmt.Sprintf("%d writes of this section: the reader computes every offset from a section table entry that is missing or overwritten", writes[n]))
 	}
 	r.Floor(ruleB+" sections", 12, len(names))
-	// writeSection helper order: begin → f() → end → pad
-	for _, l := range fin.Lits {
-		if len(l.Type().Params.List) != 2 {
-			continue
-		}
-		isHelper := false
-		for _, c := range callsIn(l.Body()) {
-			if fn := p.Callee(l.Pkg, c); fn != nil && fn.Name() == "setSectionBegin" {
-				isHelper = true
-			}
-		}
-		if !isHelper {
-			continue
-		}
+	// section helper order: begin → f() → end → pad
+	var helperList []*Fn
+	for h := range sectionHelpers {
+		helperList = append(helperList, h)
+	}
+	sort.Slice(helperList, func(i, j int) bool { return helperList[i].Key() < helperList[j].Key() })
+	if len(helperList) == 0 {
+		r.Bad(ruleB, "section helper: begin → body → end → pad", p.Pos(fin.Node()), "no function that brackets a section body with setSectionBegin/End was found in Finalize's call sites")
+	}
+	for _, l := range helperList {
+		bodyParam := paramObj(l, 1)
 		fl := p.Flow(l)
 		step := func(name string) func(ast.Node) bool {
 			return func(n ast.Node) bool {
@@ -138,7 +191,7 @@ func ruleC01Sections(p *Prog, r *Res) {
 					if fn := p.Callee(l.Pkg, c); fn != nil && fn.Name() == name {
 						return true
 					}
-					if id, ok := c.Fun.(*ast.Ident); ok && name == "f" && id.Name == "f" {
+					if id, ok := c.Fun.(*ast.Ident); ok && name == "f" && bodyParam != nil && l.Pkg.TypesInfo.Uses[id] == bodyParam {
 						return true
 					}
 					return false
